@@ -3,7 +3,7 @@ use crate::common::*;
 use nalgebra::Vector3;
 use spdcalc::dim::ucum::{K, M, RAD, S};
 use spdcalc::prelude::*;
-use spdcalc::{delta_k, CrystalSetup, PeriodicPoling, Sign};
+use spdcalc::{delta_k, CrystalSetup, PeriodicPoling, Sign, SPDC};
 
 pub const C: f64 = 299_792_458.0;
 pub const TAU: f64 = std::f64::consts::TAU;
@@ -179,7 +179,7 @@ fn gen_poling(r: &mut Rng) -> PeriodicPoling {
 }
 
 /// one case: K lines for `opt_idler`/`delta_k`, and (when `stmt`) the statement's S predicates
-fn case(ctx: &mut Ctx, cs: &CrystalSetup, lp: f64, ls: f64, ths: f64, phs: f64, pp: &PeriodicPoling, stmt: bool) {
+fn case(ctx: &mut Ctx, spdc0: &SPDC, cs: &CrystalSetup, lp: f64, ls: f64, ths: f64, phs: f64, pp: &PeriodicPoling, stmt: bool) {
   let pm = cs.pm_type;
   let waist = ctx.rng.log_range(20e-6, 2e-3);
   let (signal, pump) = mk_beams(pm, lp, ls, ths, phs, waist);
@@ -299,7 +299,24 @@ fn case(ctx: &mut Ctx, cs: &CrystalSetup, lp: f64, ls: f64, ths: f64, phs: f64, 
   let expect = kp - ks - ki - zhat * k_lambda;
   let ok = (dk - expect).amax() <= 1e-9 * scale;
   ctx.s("C03.deltak", ok, "dk/definition", &format!("{} got=({:e},{:e},{:e}) want=({:e},{:e},{:e})", what, dk.x, dk.y, dk.z, expect.x, expect.y, expect.z));
-  // same through the SPDC object
+  // the same mismatch as reported by the SPDC object (`SPDC::delta_k` with `SPDC::optimum_idler`)
+  if ctx.rng.below(4) == 0 {
+    let mut spdc = spdc0.clone();
+    spdc.crystal_setup = cs.clone();
+    spdc.signal = signal.clone();
+    spdc.pump = pump.clone();
+    spdc.pp = pp.clone();
+    let ok = match guard(|| spdc.optimum_idler()) {
+      Some(Ok(i)) => {
+        spdc.idler = i;
+        let dk2 = raw_vec(spdc.delta_k(ws * RAD / S, wi * RAD / S));
+        (dk2 - expect).amax() <= 1e-9 * scale
+      }
+      _ => false,
+    };
+    ctx.count("dk/spdc-object");
+    ctx.s("C03.deltak", ok, "dk/definition/spdc-object", &what);
+  }
   // (2) energy conservation, polarization, azimuth, waist
   let li = l_of(&idler);
   let inv = 1.0 / lpr - 1.0 / lsr;
@@ -332,11 +349,12 @@ fn case(ctx: &mut Ctx, cs: &CrystalSetup, lp: f64, ls: f64, ths: f64, phs: f64, 
 
 pub fn run(ctx: &mut Ctx) {
   let cr = crystals();
+  let spdc0 = SPDC::default();
   // ---- pinned examples of the test-suite
   {
     let cs = mk_setup(CrystalType::BBO_1, PMType::Type2_e_eo, (-3.0f64).to_radians(), 1.0f64.to_radians(), 2e-3, 20.0, false);
-    case(ctx, &cs, 775e-9, 1550e-9, 15f64.to_radians(), 10f64.to_radians(), &pp_on(0.00004656366863331685, false), true);
-    case(ctx, &cs, 775e-9, 1550e-9, 0.0, 0.0, &PeriodicPoling::Off, true);
+    case(ctx, &spdc0, &cs, 775e-9, 1550e-9, 15f64.to_radians(), 10f64.to_radians(), &pp_on(0.00004656366863331685, false), true);
+    case(ctx, &spdc0, &cs, 775e-9, 1550e-9, 0.0, 0.0, &PeriodicPoling::Off, true);
   }
   for _ in 0..ctx.n {
     let crystal = ctx.rng.pick(&cr).clone();
@@ -365,7 +383,7 @@ pub fn run(ctx: &mut Ctx) {
     };
     let pp = gen_poling(&mut ctx.rng);
     let cs = mk_setup(crystal.clone(), pm, ctheta, cphi, length, celsius, false);
-    case(ctx, &cs, lp, ls, ths, phs, &pp, true);
+    case(ctx, &spdc0, &cs, lp, ls, ths, phs, &pp, true);
 
     // correspondence only: other branches of try_new_optimum (counter-propagation, backward and negative
     // signal angles, azimuths outside [0,2π)), and the error stream λs ≤ λp
@@ -379,7 +397,7 @@ pub fn run(ctx: &mut Ctx) {
       };
       let phs2 = ctx.rng.range(-7.0, 13.0);
       let cs2 = mk_setup(crystal.clone(), pm, ctheta, cphi, length, celsius, cp);
-      case(ctx, &cs2, lp, ls, ths2, phs2, &pp, false);
+      case(ctx, &spdc0, &cs2, lp, ls, ths2, phs2, &pp, false);
     }
     if ctx.rng.below(6) == 0 {
       // λs ≤ λp (equal, swapped, marginally smaller)
@@ -388,7 +406,7 @@ pub fn run(ctx: &mut Ctx) {
         1 => (ls, lp),
         _ => (lp, lp * (1.0 - 1e-12)),
       };
-      case(ctx, &cs, a, b, ths, phs, &pp, true);
+      case(ctx, &spdc0, &cs, a, b, ths, phs, &pp, true);
     }
   }
   // k_eff, including the assertion on non-positive periods
